@@ -131,7 +131,14 @@ static int find_id(const lp_polynomial_t* p) {
 }
 /* what is left in the source of a move: z = zero polynomial, s = still pool[k], ? = something else */
 static char src_state(const lp_polynomial_t* src, int k) {
-  if (lp_polynomial_is_zero(src)) return 'z';
+  if (lp_polynomial_is_zero(src)) {
+    /* "the zero polynomial" must also BEHAVE as zero: equal to a freshly built 0 and hashed like it
+       (a move that leaves a stale cached hash behind makes eq(source, 0) false) */
+    lp_polynomial_t* z0 = lp_polynomial_new(lp_polynomial_get_context(src));
+    int same = lp_polynomial_eq(src, z0) && lp_polynomial_hash(src) == lp_polynomial_hash(z0);
+    lp_polynomial_delete(z0);
+    return same ? 'z' : 'Z';
+  }
   if (lp_polynomial_cmp(src, g_pool[k]) == 0) return 's';
   return '?';
 }
